@@ -9,7 +9,7 @@ grep "^fixed:" known_findings.txt | while read -r _ prop commit rest; do
   if ! git -C $WT revert --no-commit $commit >/dev/null 2>&1; then
     echo "$P $commit REVERT-CONFLICT (later fixes touch the same lines)"; git -C /repo worktree remove --force $WT; continue
   fi
-  EXTRA=""; [ "$P" = C09 ] && case "$rest" in *"auxiliary race"*) EXTRA="VERIF_AUX_RACE=1";; esac
+  EXTRA="VERIF_X=1"
   OUT=$(env $EXTRA VERIF_REPO=$WT ./bin/check $P --no-evidence 2>&1)
   RC=$?
   SIG=$(echo "$OUT" | grep -m1 "^violation" | cut -c1-110)
